@@ -56,6 +56,7 @@ type ADef struct {
 	AddSchema  []string // properties declared by the additionalProperties schema
 	ArrBad     bool
 	BadPattern bool
+	AliasOf    string // the definition is nothing but a reference to another one
 }
 
 type ADoc struct {
@@ -240,6 +241,10 @@ func (d *ADoc) Render() M {
 			}
 			own["additionalProperties"] = ap
 		}
+		if df.AliasOf != "" {
+			defs[df.Name] = M{"$ref": "#/definitions/" + df.AliasOf}
+			continue
+		}
 		if len(df.Parents) > 0 {
 			var all []interface{}
 			for _, p := range df.Parents {
@@ -353,6 +358,10 @@ func (d *ADoc) Abstract() M {
 		for _, p := range df.Parents {
 			parents = append(parents, p)
 			refs = append(refs, "def:"+p)
+		}
+		if df.AliasOf != "" { // an alias stands for its target: everything is inherited through it
+			parents = append(parents, df.AliasOf)
+			refs = append(refs, "def:"+df.AliasOf)
 		}
 		props := []interface{}{}
 		for _, pn := range df.Props {
@@ -489,7 +498,7 @@ var RuleEdits = []string{
 	"!BodyAndFormData", "!ArrayParamNoItems", "!NestedItemsNoItems", "!HeaderArrayNoItems", "!BodySchemaArrayNoItems", "!ResponseSchemaArrayNoItems", "!DefinitionArrayNoItems",
 	"!RequiredUndefined", "!RequiredVsAdditionalFalse", "!RequiredNotInAdditionalSchema", "!DanglingRef", "!DupInheritedProperty", "!CircularAncestryDirect", "!CircularAncestryIndirect",
 	"!OverlappingPaths", "!CircularAncestryBareRing", "!PathParamOnPlainPath", "!DupInheritedViaBareChild", "!BadPatternParam", "!BadPatternHeader", "!BadPatternSchema", "!BadPatternItems",
-	"!SecondBodySameName", "!BadPatternNonStringParam", "!BadPatternSharedNonStringParam",
+	"!SecondBodySameName", "!BadPatternNonStringParam", "!BadPatternSharedNonStringParam", "!UndeclaredLaterPlaceholder", "!DupInheritedViaAlias", "!DupInheritedViaAliasOfAlias",
 	"=AddUnrelatedDefinition", "=RequiredViaAdditionalTrue", "=RequiredViaAdditionalSchema", "=MixedSegmentSiblings", "=MoveParamToPathLevel", "=SameParamNameOtherLocation", "=EmptyOperationIds",
 }
 
@@ -563,6 +572,14 @@ func ApplyRuleEdit(d *ADoc, e string, r *rand.Rand) (ok bool) {
 			}
 		}
 		return false
+	case "!UndeclaredLaterPlaceholder":
+		// several placeholders, the first ones declared, a later one not
+		d.Paths = append(d.Paths, APath{Template: "/multi/{first}/x/{second}/y/{third}", Ops: []AOp{{Method: "get", ID: "multiOp",
+			Params: []AParam{{Name: "first", Loc: "path", Required: true, Type: "string"}, {Name: "second", Loc: "path", Required: true, Type: "string"}}, Resps: []AResp{{Code: "200"}}}}})
+	case "!DupInheritedViaAlias":
+		d.Defs = append(d.Defs, ADef{Name: "AB1", Props: []string{"shared"}}, ADef{Name: "AL1", AliasOf: "AB1"}, ADef{Name: "AC1", Props: []string{"shared", "z"}, Parents: []string{"AL1"}})
+	case "!DupInheritedViaAliasOfAlias":
+		d.Defs = append(d.Defs, ADef{Name: "AB2", Props: []string{"shared"}}, ADef{Name: "AL2", AliasOf: "AB2"}, ADef{Name: "AL3", AliasOf: "AL2"}, ADef{Name: "AC2", Props: []string{"w", "shared"}, Parents: []string{"AL3"}})
 	case "!ExtraPathParam":
 		op.Params = append(op.Params, AParam{Name: "ghost", Loc: "path", Required: true, Type: "string"})
 	case "!PathParamNotRequired":
